@@ -189,7 +189,8 @@ func SliceA[S ~[]E, E any](s S, pos string) S {
 	if X != nil && X.cfg.Race && cap(s) > 0 {
 		Accesses++
 		full := s[:cap(s)]
-		X.access(unsafe.Pointer(&full[0]), pos, true)
+		// without spare capacity append only copies the elements into a new array (a read)
+		X.access(unsafe.Pointer(&full[0]), pos, len(s) < cap(s))
 	}
 	return s
 }
